@@ -110,8 +110,8 @@ fn gen_bytes(rng: &mut Rng) -> Vec<u8> {
                 }
             }
             3 => {
-                // multibyte utf-8
-                let s = *rng.pick(&["é", "€", "😀", "ß∂", "日本"]);
+                // multibyte utf-8 (incl. a byte order mark at the very start of a string)
+                let s = *rng.pick(&["é", "€", "😀", "ß∂", "日本", "\u{feff}", "\u{feff}ab", "a\u{feff}"]);
                 b.extend_from_slice(s.as_bytes());
                 if rng.chance(1, 2) {
                     b.push(0);
@@ -185,7 +185,22 @@ impl Property for C11 {
                 reqs: vec![Req::Typed(idx), Req::Offset, Req::Word],
             };
         }
-        let bytes = gen_bytes(rng);
+        let mut bytes = gen_bytes(rng);
+        if rng.chance(1, 3000) {
+            // scale: a string whose terminator is hundreds of kilobytes away (word counts beyond 16 bits)
+            let n = *rng.pick(&[262_139usize, 262_143, 262_144, 262_148, 300_001]);
+            bytes = vec![b'a'; n];
+            bytes.push(0);
+            while bytes.len() % 4 != 0 {
+                bytes.push(0);
+            }
+            bytes.extend_from_slice(&[1, 2, 3, 4, 5, 6, 7, 8]);
+            return Trace {
+                bytes,
+                flush_end: true,
+                reqs: vec![Req::SetLimit(rng.range(65_536, 80_000)), Req::Str, Req::Offset, Req::Word, Req::LimitReached, Req::Word, Req::Word],
+            };
+        }
         let n = rng.range(5, 40) as usize;
         let words_left = (bytes.len() / 4) as u64;
         let typed_base = rng.below(TYPED_KINDS.len() as u64) as u32;
@@ -199,6 +214,9 @@ impl Property for C11 {
                     // astronomically large counts: must fail cleanly (never mid-size ones that could really allocate)
                     0 => u64::MAX,
                     1 => 1 << 62,
+                    // huge counts whose byte size wraps around to a small number
+                    2 => ((rng.range(1, 3)) << 62) + rng.range(1, 6),
+                    3 => (1u64 << 63) + rng.range(1, 6),
                     _ => rng.below(7),
                 }),
                 5..=7 => Req::Str,
@@ -714,7 +732,7 @@ impl Property for C11 {
                 _ => {}
             }
         }
-        for i in 0..t.bytes.len() {
+        for i in 0..t.bytes.len().min(512) {
             if t.bytes[i] != 0 && t.bytes[i] != b'A' {
                 let mut c = t.clone();
                 c.bytes[i] = if t.bytes[i] > 0x7f { b'A' } else { 0 };
